@@ -46,12 +46,12 @@ def run(ctx):
         if ctx.anchor(n):
             bs = ctx.bodies_of(n)
             b = ctx.body(n)
-            got = {v.rsplit("::", 1)[1] for x in bs for v in x.fn.vars if "ManifestValidationError::" in v}
+            got = {v.rsplit("::", 1)[-1] for x in bs for v in x.fn.vars if "ManifestValidationError::" in v}
             # errors may be raised by the get_existing_* helper it calls
             helper = [c[0] for x in bs for c in x.fn.calls if re.search(r"::get_existing_\w+$", c[0])]
             for h in helper:
                 for hb in ctx.bodies_of(h):
-                    got |= {v.rsplit("::", 1)[1] for v in hb.fn.vars if "ManifestValidationError::" in v}
+                    got |= {v.rsplit("::", 1)[-1] for v in hb.fn.vars if "ManifestValidationError::" in v}
             ctx.ob(f"{fn}|rejections", set(errs) <= got, f"{fn} (+{[h.split('::')[-1] for h in helper]}) can raise {sorted(got)}; required {errs}", b.loc())
             wr = [x for x in bs if any(y.endswith(".consumed_at") for y in x.fn.fw)]
             ctx.ob(f"{fn}|marks-consumed", bool(wr), "writes consumed_at", b.loc())
@@ -103,11 +103,11 @@ def run(ctx):
     n = SI + "::handle_wrap_up"
     if ctx.anchor(n):
         bs = ctx.bodies_of(n)
-        got = {v.rsplit("::", 1)[1] for x in bs for v in x.fn.vars if "ManifestValidationError::" in v}
+        got = {v.rsplit("::", 1)[-1] for x in bs for v in x.fn.vars if "ManifestValidationError::" in v}
         sub = [c[0] for x in bs for c in x.fn.calls if re.search(r"::(validate_at_end|verify_final_instruction)$", c[0])]
         for h in sub:
             for hb in ctx.bodies_of(h):
-                got |= {v.rsplit("::", 1)[1] for v in hb.fn.vars if "ManifestValidationError::" in v}
+                got |= {v.rsplit("::", 1)[-1] for v in hb.fn.vars if "ManifestValidationError::" in v}
         need = {"DanglingBucket", "DanglingAddressReservation"}
         ctx.ob("wrap-up|dangling-checks", need <= got, f"wrap-up can raise {sorted(got)}", F.fns[n].loc())
     ctx.assume("agreement with run-time behaviour for every instruction sequence is not decided")
